@@ -5,6 +5,9 @@ rollout_spec, symdiff_correct, jacobian_A..D, affine_reproduces, nls_history, se
 nls_history_alias, alias_defect_witness, …).
 
 Correspondence streams (real code from /repo vs the Lean model executed in 192-bit arithmetic)
+  multi   : deterministic corpus + random histories over 2-3 systems (tagged events; times from literals, from int64
+            tensors the caller keeps and re-uses, from another system's `.systime`) vs `c15.mclock`; every clock follows its
+            own law, kept tensors are never modified (theorem multi_clock_independent);
   clock   : random histories of call / raising call / direct forward / reset / systime= / set_refpoint on LTI, LTV
             and NLS objects, time arguments as int, float, bool, 0-dim int/float tensors; `.systime` after every
             event vs `c15.clock` (exact);
@@ -35,15 +38,19 @@ from .common import Ctx, to_wire, wire_list
 
 META = {
     "rule": "every case is generated from its own 40-bit sub-seed drawn from ctx.rng (stored in the case, so it replays "
-            "exactly). clock (600 quick / 8000 thorough histories): kind lti|ltv|nls x 8-16 events (call, raising call, direct "
+            "exactly). corpus: 6 fixed multi-system scenarios run first (kept int64 time tensors re-used after forwards, systems "
+            "assigned from each other's .systime or from one shared tensor and stepped/reset in interleaved order, shape-(1,) "
+            "tensors, LTV.set_refpoint(t=kept tensor)); multi (400 / 6000): 2-3 systems, 8-18 tagged events, times from literals, "
+            "kept 0-dim / shape-(1,) int64 tensors, other systems' clocks; clock (600 quick / 8000 thorough histories): kind lti|ltv|nls x 8-16 events (call, raising call, direct "
             "forward/state_transition/observation, reset, systime=, 1-dim tensor (raises), set_refpoint) x 12 ways of writing a "
             "time (python int/float/negative float/bool/huge int, 0-dim int64/int32/float64/float32 tensors, ladder "
             "-3..40,1000); lin (700 / 12000): lti | ltv indexed by _t | ltv indexed by _t % T, dims 1..4, 9 batch layouts with "
             "independently broadcast sub-batches of A,B,C,D,c1,c2,x,u, 0-dim states, optional constants, float64/float32, "
             "magnitudes 1e-3..1e3, 3-8 events with feedback roll-outs, wrong dimensions, slice index out of range; nls "
             "(650 / 12000): nx 1..3, nu 1..2, trees of depth <= 4 (+ - * neg sin cos pow 0..3, shared sub-trees, time variable), "
-            "4-10 events (call, set_refpoint with x,u None or given and t None | sys.systime | fresh tensor, reset, systime=, "
-            "read); bmv (300 / 6000): bmv, bvv, bvmv on broadcast batches, LieTensor argument, out=. A case is non-trivial "
+            "4-10 events (call, set_refpoint with x,u None or given and t None | sys.systime | fresh tensor | kept int64 tensor, reset, "
+            "systime= (also from a kept tensor), a second system exchanging times, read); lin histories also get kept-tensor "
+            "assignments and a second system; bmv (300 / 6000): bmv, bvv, bvmv on broadcast batches, LieTensor argument, out=. A case is non-trivial "
             "when it contains a completed call or a read, and distinct by (stream, kind, dims, batch layout, dtype, "
             "event-kind sequence, tree operator multiset).",
     "trusted": ["torch.autograd.functional.jacobian / autograd of built-in ops (contract: returns the derivative of the "
@@ -344,6 +351,17 @@ def safe_clock(ctx, case, sys_, i, ev):
         return None
 
 
+class _Abort(Exception):
+    """a failing input was recorded and the observation of this case cannot go on"""
+
+
+def clk(ctx, case, sys_, i, ev):
+    v = safe_clock(ctx, case, sys_, i, ev)
+    if v is None:
+        raise _Abort()
+    return v
+
+
 def guarded(ctx, case, fn, *args):
     """run the implementation-side part of one case; an exception escaping from it is a misbehaviour of the
     implementation on this case (the harness itself is exercised on the clean tree for every seed) — recorded as a
@@ -352,6 +370,8 @@ def guarded(ctx, case, fn, *args):
         return fn(ctx, case, *args)
     except common.InfraError:
         raise
+    except _Abort:
+        return None
     except Exception as ex:
         import traceback
         tb = traceback.format_exc()
@@ -794,6 +814,19 @@ def gen_lin_case(seed, quick):
             evs.append({"ev": "assign", "t": {"v": rng.randint(-T - 1, T + 2), "as": rng.choice(["py", "int64"])}})
         else:
             evs.append({"ev": "ref", "t": None if rng.random() < 0.2 else {"v": rng.randint(-T, T + 1), "as": "int64"}})
+    # seeded C15-2 scenario class: int64 tensors the caller keeps and re-uses; a second system exchanging times
+    slots = [rng.randint(-T, T + 1) for _ in range(2)]
+    case["slots"] = slots
+    extra = []
+    for _ in range(rng.choice([0, 1, 2, 3])):
+        c = rng.random()
+        if c < 0.4:
+            k_ = rng.randrange(2)
+            extra.append({"ev": rng.choice(["assign", "assign", "reset", "ref"]), "t": {"slot": k_, "v": slots[k_], "as": "slot"}})
+        else:
+            extra.append({"ev": "twin", "op": rng.choice(["from_main", "call", "call", "reset", "to_main"])})
+    for x_ in extra:
+        evs.insert(rng.randint(0, len(evs)), x_)
     case["events"] = evs
     return case
 
@@ -884,8 +917,29 @@ def bitem(X, batch_nd, full, idx):
 
 
 def check_lin(ctx: Ctx, case):
+    try:
+        return _check_lin(ctx, case)
+    except common.InfraError:
+        raise
+    except _Abort:
+        pass
+    except Exception as ex:
+        import traceback
+        ctx.fail(pub(case), f"impl-exception: unexpected {type(ex).__name__}: {str(ex)[:120]} while observing the implementation "
+                            f"({traceback.format_exc().strip().splitlines()[-3].strip()[:120]})")
+    case["_lines"], case["_impl"] = [], []
+    return False
+
+
+def _check_lin(ctx: Ctx, case):
     P = pp()
     g, A, B, C, D, c1, c2 = lin_tensors(case)
+    slot_t = [torch.tensor(v, dtype=torch.int64) for v in case.get("slots", [])]
+    slot_keep = [t.clone() for t in slot_t]
+    twin, twin_clock = make_simple(P, "lti"), 0
+
+    def lin_time(spec):
+        return slot_t[spec["slot"]] if "slot" in spec else mk_time(spec)
     keep = [t.clone() if t is not None else None for t in (A, B, C, D, c1, c2)]
     sys_ = make_lin(P, case, A, B, C, D, c1, c2)
     dt, eps = DT(case["dtype"]), common.EPS[case["dtype"]]
@@ -946,14 +1000,14 @@ def check_lin(ctx: Ctx, case):
                 ev_tokens[idx].append(("fwd " if ev == "fwd" else "call ") + f"{xi.numel()} " + wire_list(xi.double().tolist()) +
                                       f" {ui.numel()} " + wire_list(ui.double().tolist()))
             if raised is not None:
-                impl.append((int(sys_.systime), "R"))
+                impl.append((clk(ctx, case, sys_, i, ev), "R"))
                 if not expect_raise:
                     ctx.fail({**pub(case), "at": i}, f"lin-raises: {case['sys']} call raised {type(raised).__name__}: {str(raised)[:100]} at clock {clock}")
                     ok = False
             else:
                 xn, y = out
                 magrec = {}
-                impl.append((int(sys_.systime), (xn, y, magrec)))
+                impl.append((clk(ctx, case, sys_, i, ev), (xn, y, magrec)))
                 if expect_raise:
                     ctx.fail({**pub(case), "at": i}, f"lin-no-raise: call at clock {clock} (slice {sl}, event {ev}) returned instead of raising")
                     ok = False
@@ -1002,15 +1056,30 @@ def check_lin(ctx: Ctx, case):
         else:
             tok = None
             try:
-                if ev == "reset":
+                if ev == "twin":            # a second system exchanging times with this one: no shared clock
+                    op = e["op"]
+                    clock_expect = clock
+                    if op == "from_main":
+                        twin.systime = sys_.systime
+                        twin_clock = clock
+                    elif op == "call":
+                        twin(torch.tensor([1.0]), torch.tensor([1.0]))
+                        twin_clock += 1
+                    elif op == "reset":
+                        twin.reset()
+                        twin_clock = 0
+                    else:
+                        sys_.systime = twin.systime
+                        clock_expect, tok = twin_clock, "assign=" + to_wire(twin_clock)
+                elif ev == "reset":
                     if e["t"] is None:
                         sys_.reset()
                         clock_expect, tok = 0, "reset=0:0"
                     else:
-                        sys_.reset(mk_time(e["t"]))
+                        sys_.reset(lin_time(e["t"]))
                         clock_expect, tok = e["t"]["v"], "reset=" + to_wire(e["t"]["v"])
                 elif ev == "assign":
-                    sys_.systime = mk_time(e["t"])
+                    sys_.systime = lin_time(e["t"])
                     clock_expect, tok = e["t"]["v"], "assign=" + to_wire(e["t"]["v"])
                 else:
                     tok = "ref=" + ("none" if e["t"] is None else to_wire(e["t"]["v"]))
@@ -1021,7 +1090,7 @@ def check_lin(ctx: Ctx, case):
                         except Exception:
                             pass
                     else:
-                        r = sys_.set_refpoint(t=None if e["t"] is None else mk_time(e["t"]))
+                        r = sys_.set_refpoint(t=None if e["t"] is None else lin_time(e["t"]))
                         if r is not sys_:
                             ctx.fail({**pub(case), "at": i}, "refpoint-return: set_refpoint does not return the system")
                         if ltv:
@@ -1030,13 +1099,23 @@ def check_lin(ctx: Ctx, case):
                 ctx.fail({**pub(case), "at": i}, f"clock-raises: {ev} raised {type(ex).__name__}: {str(ex)[:100]}")
                 ok = False
                 clock_expect = clock
-            for idx in idxs:
-                ev_tokens[idx].append(tok)
-            impl.append((int(sys_.systime), None))
-        now = int(sys_.systime)
+            if tok is not None:
+                for idx in idxs:
+                    ev_tokens[idx].append(tok)
+                impl.append((clk(ctx, case, sys_, i, ev), None))
+        now = clk(ctx, case, sys_, i, ev)
         if now != clock_expect:
-            ctx.fail({**pub(case), "at": i}, f"clock-law: after event {i} ({ev}) systime={now}, the law gives {clock_expect}")
+            ctx.fail({**pub(case), "at": i}, f"clock-law: after event {i} ({ev}{' ' + e['op'] if ev == 'twin' else ''}) systime={now}, the law gives {clock_expect}")
             ok = False
+        tnow = clk(ctx, case, twin, i, ev + ", reading the second system")
+        if tnow != twin_clock:
+            ctx.fail({**pub(case), "at": i}, f"clock-shared: event {i} ({ev}{' ' + e['op'] if ev == 'twin' else ''}) left the second system's time at {tnow}, its own law gives {twin_clock} "
+                                             f"(first system: {now}); every system owns its clock")
+            raise _Abort()
+        for k_, (t_, kp) in enumerate(zip(slot_t, slot_keep)):
+            if t_.shape != kp.shape or not torch.equal(t_, kp):
+                ctx.fail({**pub(case), "at": i}, f"mutation: the caller's time tensor (slot {k_}, value {kp.tolist()}) was changed to {t_.tolist()} by event {i} ({ev})")
+                raise _Abort()
         clock = now
     for t_, k_ in zip((A, B, C, D, c1, c2), keep):
         if t_ is not None and not torch.equal(t_, k_):
@@ -1163,9 +1242,22 @@ def gen_nls_case(seed, quick):
             evs.append({"ev": "assign", "t": {"v": rng.randint(-3, 30), "as": rng.choice(["py", "int64"])}})
         else:
             evs.append({"ev": "read"})
+    # seeded C15-2 scenario class: kept int64 tensors (0-dim / shape (1,)) written into the clock and used as reference
+    # time, re-used later; a second system exchanging times with this one
+    slots = [{"v": rng.randint(-3, 30), "shape": 0}, {"v": rng.randint(0, 30), "shape": rng.choice([0, 1])}]
+    for _ in range(rng.choice([0, 1, 2, 3])):
+        c = rng.random()
+        if c < 0.25:
+            x_ = {"ev": "assign", "t": {"slot": 0, "v": slots[0]["v"], "as": "slot"}}
+        elif c < 0.5:
+            k_ = rng.randrange(2)
+            x_ = {"ev": "ref", "x": gen_vals(rng, nx, dtype), "u": gen_vals(rng, nu, dtype), "t": {"slot": k_, "v": slots[k_]["v"], "as": "slot"}, "scalar": False}
+        else:
+            x_ = {"ev": "twin", "op": rng.choice(["from_main", "call", "call", "reset", "to_main"])}
+        evs.insert(rng.randint(0, len(evs)), x_)
     if not any(e["ev"] == "read" for e in evs):
         evs.append({"ev": "read"})
-    return {"kind": "nls", "seed": seed, "nx": nx, "nu": nu, "dtype": dtype, "fs": fs, "gs": gs, "events": evs}
+    return {"kind": "nls", "seed": seed, "nx": nx, "nu": nu, "dtype": dtype, "fs": fs, "gs": gs, "events": evs, "slots": slots}
 
 
 def make_nls(P, case):
@@ -1186,19 +1278,46 @@ def make_nls(P, case):
     return TreeNLS()
 
 
+def nls_model_events(case):
+    """events that reach the model, with the literal time of `to_main` (the second system's clock follows its own law,
+    which is a function of the event list: multi_clock_independent)"""
+    out, clock, twin = [], 0, 0
+    for i, e in enumerate(case["events"]):
+        k_ = e["ev"]
+        if k_ == "twin":
+            if e["op"] == "from_main":
+                twin = clock
+            elif e["op"] == "call":
+                twin += 1
+            elif e["op"] == "reset":
+                twin = 0
+            else:
+                clock = twin
+                out.append((i, {"ev": "assign", "t": {"v": twin, "as": "py"}}))
+            continue
+        if k_ == "call":
+            clock += 1
+        elif k_ == "reset":
+            clock = 0 if e["t"] is None else int(e["t"]["v"])
+        elif k_ == "assign":
+            clock = int(e["t"]["v"])
+        out.append((i, e))
+    return out
+
+
 def nls_line(case, alias):
     toks = []
     for t in case["fs"] + case["gs"]:
         tree_tokens(t, toks)
     ev = []
-    for e in case["events"]:
+    for _, e in nls_model_events(case):
         k_ = e["ev"]
         if k_ == "call":
             ev.append(f"call {len(e['x'])} {wire_list(e['x'])} {len(e['u'])} {wire_list(e['u'])}")
         elif k_ == "ref":
             xs = "-" if e["x"] is None else f"{len(e['x'])} {wire_list(e['x'])}"
             us = "-" if e["u"] is None else f"{len(e['u'])} {wire_list(e['u'])}"
-            ts = "-" if e["t"] is None else ("L" if e["t"] == "live" else time_token(mk_time(e["t"])))
+            ts = "-" if e["t"] is None else ("L" if e["t"] == "live" else (to_wire(e["t"]["v"]) if "slot" in e["t"] else time_token(mk_time(e["t"]))))
             ev.append(f"ref {xs} {us} {ts}")
         elif k_ == "reset":
             ev.append("reset=" + (to_wire(0) if e["t"] is None else to_wire(e["t"]["v"])))
@@ -1214,23 +1333,23 @@ def parse_nls_reply(rep, case):
     if st != "ok":
         raise common.InfraError(f"model error on nls line: {rep}")
     nf, ng = len(case["fs"]), len(case["gs"])
-    out, i = [], 0
-    for e in case["events"]:
+    out, i = {}, 0
+    for ei, e in nls_model_events(case):
         clock, kind = int(toks[i]), toks[i + 1]
         i += 2
         if kind == "O":
             nums = [common.from_wire(t) for t in toks[i:i + nf + ng]]
             i += nf + ng
-            out.append((clock, "O", nums))
+            out[ei] = (clock, "O", nums)
         elif kind == "L":
             nx, nu = int(toks[i]), int(toks[i + 1])
             i += 2
             cnt = nf * nx + nf * nu + ng * nx + ng * nu + nf + ng
             nums = [common.from_wire(t) for t in toks[i:i + cnt]]
             i += cnt
-            out.append((clock, "L", (nx, nu, nums)))
+            out[ei] = (clock, "L", (nx, nu, nums))
         else:
-            out.append((clock, kind, None))
+            out[ei] = (clock, kind, None)
     if i != len(toks):
         raise common.InfraError("nls reply not fully consumed")
     return out
@@ -1271,6 +1390,20 @@ def known_alias(kf, case):
 
 
 def check_nls(ctx: Ctx, case, model_doc=None, model_alias=None, oracle_budget=None):
+    try:
+        return _check_nls(ctx, case, model_doc, model_alias, oracle_budget)
+    except common.InfraError:
+        raise
+    except _Abort:
+        return False
+    except Exception as ex:
+        import traceback
+        ctx.fail(strip(case), f"impl-exception: unexpected {type(ex).__name__}: {str(ex)[:120]} while observing the implementation "
+                              f"({traceback.format_exc().strip().splitlines()[-3].strip()[:120]})")
+        return False
+
+
+def _check_nls(ctx: Ctx, case, model_doc=None, model_alias=None, oracle_budget=None):
     """runs the history on the real code; compares with the two model runs (if given); applies the oracles"""
     import mpmath as mp
     P = pp()
@@ -1278,6 +1411,9 @@ def check_nls(ctx: Ctx, case, model_doc=None, model_alias=None, oracle_budget=No
     nx, nu, nv = case["nx"], case["nu"], case["nx"] + case["nu"] + 1
     nf, ng = len(case["fs"]), len(case["gs"])
     sys_ = make_nls(P, case)
+    slot_t = [torch.tensor(sl["v"] if sl["shape"] == 0 else [sl["v"]], dtype=torch.int64) for sl in case.get("slots", [])]
+    slot_keep = [t.clone() for t in slot_t]
+    twin, twin_clock = make_simple(P, "lti"), 0
     clock, last, ref = 0, None, None          # python-side bookkeeping of the documented semantics
     ok = True
     handed = []
@@ -1288,8 +1424,8 @@ def check_nls(ctx: Ctx, case, model_doc=None, model_alias=None, oracle_budget=No
         return t.reshape(()) if (scalar and len(vals) == 1) else t
     for i, e in enumerate(case["events"]):
         k_ = e["ev"]
-        md = model_doc[i] if model_doc else None
-        ma = model_alias[i] if model_alias else None
+        md = model_doc.get(i) if model_doc else None
+        ma = model_alias.get(i) if model_alias else None
         if k_ == "call":
             x, u = T(e["x"], e["scalar"]), T(e["u"], e["scalar"])
             handed += [(x, x.clone()), (u, u.clone())]
@@ -1320,6 +1456,8 @@ def check_nls(ctx: Ctx, case, model_doc=None, model_alias=None, oracle_budget=No
                 ta = None
             elif e["t"] == "live":
                 ta = sys_.systime
+            elif "slot" in e["t"]:
+                ta = slot_t[e["t"]["slot"]]           # a kept int64 tensor, 0-dim or shape (1,), re-used by the caller
             else:
                 ta = mk_time(e["t"])
                 if e["t"].get("dim1"):
@@ -1349,6 +1487,8 @@ def check_nls(ctx: Ctx, case, model_doc=None, model_alias=None, oracle_budget=No
                 us = e["u"] if e["u"] is not None else last[1]
                 if e["t"] is None or e["t"] == "live":
                     ts, mode = clock, ("default" if e["t"] is None else "live")
+                elif "slot" in e["t"]:
+                    ts, mode = float(e["t"]["v"]), "value"
                 else:
                     ts, mode = float(mk_time(e["t"]).item()), "value"
                 ref = {"x": xs, "u": us, "t": ts, "mode": mode, "clock": clock, "ok": True}
@@ -1365,10 +1505,29 @@ def check_nls(ctx: Ctx, case, model_doc=None, model_alias=None, oracle_budget=No
                         sys_.reset(mk_time(e["t"]))
                         clock_expect = e["t"]["v"]
                 else:
-                    sys_.systime = mk_time(e["t"])
+                    sys_.systime = slot_t[e["t"]["slot"]] if "slot" in e["t"] else mk_time(e["t"])
                     clock_expect = e["t"]["v"]
             except Exception as ex:
                 ctx.fail({**strip(case), "at": i}, f"clock-raises: {k_} raised {type(ex).__name__}: {str(ex)[:100]}")
+                return False
+        elif k_ == "twin":          # a second system exchanging times with this one: nothing is shared afterwards
+            op = e["op"]
+            clock_expect = clock
+            try:
+                if op == "from_main":
+                    twin.systime = sys_.systime
+                    twin_clock = clock
+                elif op == "call":
+                    twin(torch.tensor([1.0]), torch.tensor([1.0]))
+                    twin_clock += 1
+                elif op == "reset":
+                    twin.reset()
+                    twin_clock = 0
+                else:
+                    sys_.systime = twin.systime
+                    clock_expect = twin_clock
+            except Exception as ex:
+                ctx.fail({**strip(case), "at": i}, f"clock-raises: twin {op} raised {type(ex).__name__}: {str(ex)[:100]}")
                 return False
         else:   # read
             clock_expect = clock
@@ -1441,10 +1600,19 @@ def check_nls(ctx: Ctx, case, model_doc=None, model_alias=None, oracle_budget=No
                         ctx.disagree("nls.read", {**strip(case), "at": i},
                                      f"read at event {i}: flattened entry {q_} implementation {flat_got[q_] if q_ is not None and q_ >= 0 else '?'} "
                                      f"model(doc) {float(md[2][2][q_]) if q_ is not None and q_ >= 0 else '?'}; matches neither the documented nor the clock-buffer semantics")
-        now = int(sys_.systime)
+        now = clk(ctx, strip(case), sys_, i, k_)
         if now != clock_expect:
-            ctx.fail({**strip(case), "at": i}, f"clock-law: after event {i} ({k_}) systime={now}, the law gives {clock_expect}")
+            ctx.fail({**strip(case), "at": i}, f"clock-law: after event {i} ({k_}{' ' + e['op'] if k_ == 'twin' else ''}) systime={now}, the law gives {clock_expect}")
             ok = False
+        tnow = clk(ctx, strip(case), twin, i, k_ + ", reading the second system")
+        if tnow != twin_clock:
+            ctx.fail({**strip(case), "at": i}, f"clock-shared: event {i} ({k_}{' ' + e['op'] if k_ == 'twin' else ''}) left the second system's time at {tnow}, its own law gives {twin_clock} "
+                                               f"(first system: {now}); every system owns its clock")
+            raise _Abort()
+        for q_, (t_, kp) in enumerate(zip(slot_t, slot_keep)):
+            if t_.shape != kp.shape or not torch.equal(t_, kp):
+                ctx.fail({**strip(case), "at": i}, f"mutation: the caller's time tensor (slot {q_}, value {kp.tolist()}) was changed to {t_.tolist()} by event {i} ({k_})")
+                raise _Abort()
         if md and md[0] != now:
             ctx.disagree("nls.clock", {**strip(case), "at": i}, f"after event {i} implementation systime {now}, model {md[0]}")
         clock = now
@@ -1459,7 +1627,7 @@ def strip(case):
     """compact, JSON-able identification of an nls case (the sub-seed regenerates everything)"""
     return {"kind": "nls", "seed": case["seed"], "nx": case["nx"], "nu": case["nu"], "dtype": case["dtype"],
             "f": [" ".join(tree_tokens(t, [])) for t in case["fs"]], "g": [" ".join(tree_tokens(t, [])) for t in case["gs"]],
-            "events": [{k: v for k, v in e.items()} for e in case["events"]]}
+            "events": [{k: v for k, v in e.items()} for e in case["events"]], "slots": case.get("slots", [])}
 
 
 def nls_oracles(ctx, case, cinfo, sys_, ref, got, eps, dt, rr, full):
